@@ -1,7 +1,9 @@
 (* C10 — All honest oracles compute byte-identical outcomes and reports.
-   Theorems only; proofs are in Proofs/DeterminismP.v, Proofs/TransmitP.v, Proofs/BaseP.v. *)
+   Theorems only; proofs are in Proofs/DeterminismP.v, Proofs/TransmitP.v, Proofs/BaseP.v (the seams, 1-5) and
+   Proofs/DeterminismSysP.v (the whole outcome of both plugins, 6-8; model: Model/DeterminismSys.v). *)
 Require Import Verif.Model.Base Verif.Proofs.BaseP Verif.Model.Consensus Verif.Model.Determinism
                Verif.Proofs.DeterminismP Verif.Model.Transmit Verif.Proofs.TransmitP.
+Require Import Verif.Model.DeterminismSys Verif.Proofs.DeterminismSysP.
 
 (* 1. Every consensus map (fChain, merkle roots, on-ramp / off-ramp numbers, RMN config; GetConsensusMap), once
       sorted by key as the outcome encoders do, is the same whatever order the Go runtime iterates the aggregated
@@ -68,3 +70,176 @@ Theorem C10_tz_raw_identity_refuted :
     render_eqb (render loc t1) (render loc t2) <> render_eqb (render loc' t1) (render loc' t2).
 Proof. exact raw_identity_zone_dependent_refuted. Qed.
 Print Assumptions C10_tz_raw_identity_refuted.
+
+(* ====================================================================================================
+   WHOLE OUTCOME.  [*_outcome_canon_rt rt i] is the value Outcome.Encode serialises, as a function of
+   i = (previous outcome, query, ordered attributed observations, configuration) and of a runtime rt = the order in
+   which this oracle's Go runtime ranges over every map the function builds internally.  [*_reorder i i']: the same
+   input with every field that is a Go map (in observations and in the configuration) in another iteration order.
+   The functions take no own-oracle-id argument: "which oracle computes it" cannot matter by construction.
+   ==================================================================================================== *)
+
+(* 6. Commit plugin: merkle-root outcome (type, intervals, roots, off-ramp numbers, attempts, signatures, RMN remote
+      config), token prices, gas prices, and the address maps the discovery step hands to Sync.  No hypothesis on the
+      observations (no validation, no distinct oracles needed): slices keep their order, maps are maps. *)
+Theorem C10_commit_outcome_deterministic : forall (rt rt' : commit_rt) (i i' : commit_in),
+  commit_rt_ok rt -> commit_rt_ok rt' -> commit_reorder i i' ->
+  commit_outcome_canon_rt rt i = commit_outcome_canon_rt rt' i'.
+Proof. exact commit_outcome_deterministic. Qed.
+Print Assumptions C10_commit_outcome_deterministic.
+
+Theorem C10_commit_outcome_canon_deterministic : forall i i' : commit_in,
+  commit_reorder i i' -> commit_outcome_canon i = commit_outcome_canon i'.
+Proof. exact commit_outcome_canon_deterministic. Qed.
+Print Assumptions C10_commit_outcome_canon_deterministic.
+
+(* the hypotheses are satisfiable: the all-maps-reversed input of any input whose maps have unique keys is a
+   re-ordering; reversing every internal map is a runtime; a 4-oracle round with a non-empty outcome in all parts *)
+Theorem C10_commit_reorder_exists : forall i : commit_in,
+  commit_in_ok i = true -> commit_reorder i (commit_in_rev i).
+Proof. exact commit_in_rev_reorder. Qed.
+Print Assumptions C10_commit_reorder_exists.
+
+Example C10_commit_example :
+  commit_rt_ok commit_rt_rev /\ commit_rt_ok commit_rt_id /\
+  commit_reorder ex_ci (commit_in_rev ex_ci) /\ ex_ci <> commit_in_rev ex_ci /\
+  commit_outcome_canon ex_ci = ex_cout /\
+  commit_outcome_canon_rt commit_rt_rev (commit_in_rev ex_ci) = ex_cout.
+Proof. exact (conj commit_rt_rev_ok (conj commit_rt_id_ok commit_example)). Qed.
+Print Assumptions C10_commit_example.
+
+(* with the insertion-order runtime the parts ARE the models of C01/C03/C04 (sink C04_round, RMN disabled), C14, C01 *)
+Theorem C10_commit_parts_are_the_judged_models :
+  (exists oc, forall k prev q aos, k_off_const k = oc ->
+     (forall ao, In ao aos -> CommitConsensus.rmn_is_empty (CommitConsensus.o_rmn (snd ao)) = true) ->
+     mr_outcome_rt (fun a => a) (fun c => c) k prev q aos =
+     mr_canon (CommitSM.get_outcome (k_max k) (k_n k) prev q
+                 (CommitLive.round_cons (fun _ => CommitSM.cfg_empty) (k_F k) (k_dest k) aos))) /\
+  (forall k aos, tp_outcome_rt (fun a => a) (fun c => c) k aos =
+                 Prices.tp_outcome (t_freq k) (t_info k) (t_feedchain k) (t_F k) (t_dest k) aos) /\
+  (forall k aos, cf_outcome_rt (fun a => a) (fun c => c) (fun m => m) k aos =
+                 Prices.cf_outcome (f_freq k) (f_info k) (f_F k) (f_dest k) aos) /\
+  (forall F dest aos, disc_outcome_rt (fun a => a) F dest aos = disc_canon (Discovery.discovery_outcome F dest aos)).
+Proof. exact (conj mr_outcome_rmn_disabled (conj tp_outcome_rt_id (conj cf_outcome_rt_id disc_outcome_rt_id))). Qed.
+Print Assumptions C10_commit_parts_are_the_judged_models.
+
+(* the one thing [commit_reorder] asks of a map, unique keys, is needed: an association list with a repeated key
+   (not a Go map) in two orders gives two outcomes *)
+Theorem C10_commit_outcome_nonmap_refuted :
+  exists i info',
+    Permutation (g_tokeninfo (ci_cfg i)) info' /\
+    let k := ci_cfg i in
+    let i' := mkCommitIn (ci_prev i) (ci_query i) (ci_aos i)
+                (mkCommitCfg (g_F k) (g_dest k) (g_max k) (g_n k) (g_feedchain k) (g_tp_freq k) info' (g_cf_freq k) (g_feeinfo k) (g_off_const k)) in
+    commit_outcome_canon i <> commit_outcome_canon i'.
+Proof. exact commit_outcome_nonmap_refuted. Qed.
+Print Assumptions C10_commit_outcome_nonmap_refuted.
+
+(* 7. Execute plugin, the three states (GetCommitReports / GetMessages / Filter), from the attributed observations
+      through getConsensusObservation (five merges; GetValid in ascending id order), the state function, the report
+      builder and newSortedOutcome.  hash ... max_gas are the builder's oracles (the same functions on every oracle),
+      nid the id of a nonce triplet.  Hypothesis: ids are faithful (items filed under one id are equal: sha3 is
+      collision free on the round's renderings).  NO unique-sort-key hypothesis. *)
+Theorem C10_exec_outcome_deterministic :
+  forall (hash : N -> N -> N) (zero : N) (leaf_hash : ExecReport.msg -> option N)
+         (enc_size : ExecReport.creport -> option N) (tree_gas : N -> N) (max_size max_gas : N)
+         (nid : nonce3 -> N) (rt rt' : exec_rt) (i i' : exec_in),
+  exec_rt_ok rt -> exec_rt_ok rt' -> exec_reorder i i' -> exec_ids_faithful nid i ->
+  exec_outcome_canon_rt nid hash zero leaf_hash enc_size tree_gas max_size max_gas rt i =
+  exec_outcome_canon_rt nid hash zero leaf_hash enc_size tree_gas max_size max_gas rt' i'.
+Proof. exact exec_outcome_deterministic. Qed.
+Print Assumptions C10_exec_outcome_deterministic.
+
+Theorem C10_exec_reorder_exists : forall i : exec_in, exec_in_ok i = true -> exec_reorder i (exec_in_rev i).
+Proof. exact exec_in_rev_reorder. Qed.
+Print Assumptions C10_exec_reorder_exists.
+
+(* one 4-oracle round per state: maps reversed at every level + a runtime ranging backwards give the same outcome;
+   the outcomes are non-empty (state, (source, start, executed, #messages) per pending report, #chain reports) *)
+Example C10_exec_example :
+  exec_rt_ok exec_rt_rev /\
+  (exec_reorder ex_x1 (exec_in_rev ex_x1) /\ ex_x1 <> exec_in_rev ex_x1 /\ exec_ids_faithful ex_nid ex_x1 /\
+   eout_shape (ex_xcanon ex_x1) = Some (1, [(1, 10, [10], 0%nat); (1, 10, [], 0%nat); (2, 1, [], 0%nat)], 0%nat)%N /\
+   ex_xcanon_rt exec_rt_rev (exec_in_rev ex_x1) = ex_xcanon ex_x1) /\
+  (exec_reorder ex_x2 (exec_in_rev ex_x2) /\ exec_ids_faithful ex_nid ex_x2 /\
+   eout_shape (ex_xcanon ex_x2) = Some (2, [(1, 10, [10], 1%nat); (1, 10, [], 1%nat); (2, 1, [], 1%nat)], 0%nat)%N /\
+   ex_xcanon_rt exec_rt_rev (exec_in_rev ex_x2) = ex_xcanon ex_x2) /\
+  (exec_reorder ex_x3 (exec_in_rev ex_x3) /\ exec_ids_faithful ex_nid ex_x3 /\
+   eout_shape (ex_xcanon ex_x3) = Some (3, [(2, 1, [], 1%nat)], 1%nat)%N /\
+   ex_xcanon_rt exec_rt_rev (exec_in_rev ex_x3) = ex_xcanon ex_x3).
+Proof. exact (conj exec_rt_rev_ok exec_example). Qed.
+Print Assumptions C10_exec_example.
+
+(* the id-ordered GetValid returns exactly the items filed at least thr times (what C07's [valid] returns) *)
+Theorem C10_exec_valid_exact : forall (T : Type) (id : T -> N) (rtc : cache T -> cache T) thr (items : list T) x,
+  (forall c, Permutation c (rtc c)) -> ids_faithful id items ->
+  (In x (mo_valid rtc id thr items) <-> In x items /\ (thr <= count (id_eqb id) x items)%N).
+Proof. exact @mo_valid_spec. Qed.
+Print Assumptions C10_exec_valid_exact.
+
+(* 7a. faithful ids are needed, for messages and for nonce triplets *)
+Theorem C10_exec_msg_id_collision_refuted :
+  exists i i', exec_reorder i i' /\ ids_faithful ex_nid (nitems (xi_aos i)) /\ ex_xcanon i <> ex_xcanon i'.
+Proof. exact exec_msg_id_collision_refuted. Qed.
+Print Assumptions C10_exec_msg_id_collision_refuted.
+
+Theorem C10_exec_nonce_id_collision_refuted :
+  exists i i', exec_reorder i i' /\ (forall k, ids_faithful em_hid (mitems k (xi_aos i))) /\
+    exec_outcome_canon (fun _ => 0%N) ex_hash 0 ex_leaf ex_size ex_gas 1000 1000 i <>
+    exec_outcome_canon (fun _ => 0%N) ex_hash 0 ex_leaf ex_size ex_gas 1000 1000 i'.
+Proof. exact exec_nonce_id_collision_refuted. Qed.
+Print Assumptions C10_exec_nonce_id_collision_refuted.
+
+(* 7b. unique sort keys (F29): consensus does not guarantee them — the round ex_x1 has two valid commit data with
+      one (source chain, range start) — and 7 does not need them: the stable sorts keep ties in GetValid order, which
+      is the id order.  If GetValid ranges in cache order instead (before the repair of F17), the same cache in two
+      range orders gives two outcomes exactly because the sort key is shared. *)
+Theorem C10_exec_consensus_dupkey_example :
+  exec_ids_faithful ex_nid ex_x1 /\
+  exists o, ex_xcanon ex_x1 = Ok o /\
+            ~ NoDup (map (fun cd => (ExecReport.c_src cd, ExecReport.c_start cd)) (eo_pending o)).
+Proof. exact exec_consensus_dupkey_example. Qed.
+Print Assumptions C10_exec_consensus_dupkey_example.
+
+Theorem C10_exec_dupkey_refuted :
+  let c := cache_of ec_id (citems 1 ex_xaos) in
+  let out := fun l => new_outcome 1 (get_commit_reports (mkEmerged [(1%N, l)] [] [] [] [])) [] in
+  Permutation c (rev c) /\ NoDup (map fst c) /\
+  out (get_valid_unfixed 2 c) <> out (get_valid_unfixed 2 (rev c)) /\
+  out (get_valid 2 c) = out (get_valid 2 (rev c)).
+Proof. exact exec_dupkey_unfixed_refuted. Qed.
+Print Assumptions C10_exec_dupkey_refuted.
+
+(* 8. Reports: content decided by the outcome, transmission schedule = GetTransmissionSchedule of the role map
+      (chain -> oracle set) and the oracle id set; independent of the iteration order of the role map, of each oracle
+      set and of the oracle id enumeration. *)
+Theorem C10_schedule_role_map_only : forall roles roles' dest order order' mult,
+  roles_reorder roles roles' -> Permutation order order' ->
+  transmission_schedule roles dest order mult = transmission_schedule roles' dest order' mult.
+Proof. exact schedule_deterministic. Qed.
+Print Assumptions C10_schedule_role_map_only.
+
+Theorem C10_commit_reports_deterministic : forall rt rt' i i' roles roles' order order' mult,
+  commit_rt_ok rt -> commit_rt_ok rt' -> commit_reorder i i' ->
+  roles_reorder roles roles' -> Permutation order order' ->
+  commit_reports_canon_rt rt i roles order mult = commit_reports_canon_rt rt' i' roles' order' mult.
+Proof. exact commit_reports_deterministic. Qed.
+Print Assumptions C10_commit_reports_deterministic.
+
+Theorem C10_exec_reports_deterministic :
+  forall nid hash zero leaf_hash enc_size tree_gas max_size max_gas rt rt' i i' roles roles' order order' mult,
+  exec_rt_ok rt -> exec_rt_ok rt' -> exec_reorder i i' -> exec_ids_faithful nid i ->
+  roles_reorder roles roles' -> Permutation order order' ->
+  exec_reports_canon_rt nid hash zero leaf_hash enc_size tree_gas max_size max_gas rt i roles order mult =
+  exec_reports_canon_rt nid hash zero leaf_hash enc_size tree_gas max_size max_gas rt' i' roles' order' mult.
+Proof. exact exec_reports_deterministic. Qed.
+Print Assumptions C10_exec_reports_deterministic.
+
+Example C10_reports_schedule_example :
+  let roles := [(1, [0; 1; 2]); (9, [3; 1; 0])]%N in
+  let roles' := [(9, [0; 1; 3]); (1, [2; 1; 0])]%N in
+  roles_reorder roles roles' /\
+  transmission_schedule roles 9 [0; 1; 2; 3]%N 10 = Some ([0; 1; 3]%N, [10; 20; 30]%Z) /\
+  transmission_schedule roles' 9 [3; 2; 1; 0]%N 10 = Some ([0; 1; 3]%N, [10; 20; 30]%Z).
+Proof. exact reports_schedule_example. Qed.
+Print Assumptions C10_reports_schedule_example.
